@@ -7,16 +7,16 @@ Require Import PonyV.Base.PyBase PonyV.Model.C01Expr PonyV.Model.C01Sql PonyV.Mo
 Theorem agree_len_rows : forall d1 d2, modelled d1 = true -> modelled d2 = true ->
   forall params db ws hs proj vt w1 h1 q1 w2 h2 q2,
   pk_ok (tP db) = true -> keys_ok (map (fun g : row => g 0%nat) (tG db)) = true ->
-  forallb boolty (ws ++ hs) = true -> forallb g_only ws = true -> forallb (fun e => negb (loses_mark e)) hs = true -> ty_of proj = Some (TV vt) ->
+  forallb boolty (ws ++ hs) = true -> forallb g_only ws = true -> ty_of proj = Some (TV vt) ->
   tr_len d1 ws hs = Some (sub_join, w1, h1) -> tr_project d1 proj = Some q1 ->
   tr_len d2 ws hs = Some (sub_join, w2, h2) -> tr_project d2 proj = Some q2 ->
   Forall (fun g => len_ok d1 params db ws hs proj g /\ len_ok d2 params db ws hs proj g) (tG db) ->
   map (dec (TV vt)) (sql_len_rows d1 params db w1 h1 q1) = map (dec (TV vt)) (sql_len_rows d2 params db w2 h2 q2).
 Proof.
-  intros d1 d2 H1 H2 params db ws hs proj vt w1 h1 q1 w2 h2 q2 PK GK Ty Go Ch Hp L1 P1 L2 P2 Hall. rewrite Forall_forall in Hall.
-  destruct (len_rows d1 H1 params db PK GK ws hs proj vt w1 h1 q1 Ty Go Ch Hp L1 P1) as [_ R1].
+  intros d1 d2 H1 H2 params db ws hs proj vt w1 h1 q1 w2 h2 q2 PK GK Ty Go Hp L1 P1 L2 P2 Hall. rewrite Forall_forall in Hall.
+  destruct (len_rows d1 H1 params db PK GK ws hs proj vt w1 h1 q1 Ty Go Hp L1 P1) as [_ R1].
   { apply Forall_forall. intros g Hg. exact (proj1 (Hall g Hg)). }
-  destruct (len_rows d2 H2 params db PK GK ws hs proj vt w2 h2 q2 Ty Go Ch Hp L2 P2) as [_ R2].
+  destruct (len_rows d2 H2 params db PK GK ws hs proj vt w2 h2 q2 Ty Go Hp L2 P2) as [_ R2].
   { apply Forall_forall. intros g Hg. exact (proj2 (Hall g Hg)). }
   rewrite R1, R2. reflexivity.
 Qed.
